@@ -53,7 +53,9 @@ RULE = ("one case = (box nx,ny,nz in 8..16 quick (4 % up to 48) / 8..48 thorough
         "(incl. exactly shape[0]//2 with a hard edge) given as Fourier pixels or as resolution+pixel size on cubic AND non-cubic boxes (box edge = shape[0], the documented convention; incl. exact .5 ties of box*px/res); Gaussian width from "
         "{0,1,2,3,4} or a dyadic non-integer in (0,4]; band-passes with equal, default (3/2), arbitrary and 'narrow band with the softer low-pass edge' width pairs, nested and inverted; in ~30 % of the cases the width keyword(s) are OMITTED "
         "(signature defaults 3/2/3/2 run; the judged width is the documented default) and pixel_size is left out when unused; in ~20 % earlier low/high-pass calls with the same box/cutoff/width run first in the same process on the same array "
-        "object; thorough and the search stage also sweep EVERY hard cutoff 1..N/2 on the cubic boxes 48 and 47 (lattice points exactly on the cutoff sphere); 3 % 'reject' cases (no cutoff at all, or a resolution without pixel size: ValueError expected, the model's getFilterRadius = none); 12 % 'margin' cases (sigma<=2, box large enough for bins on both sides of cutoff±(4s+1)). Input = seeded normal random field (+DC offset; ~38 % of the maps are int16 / int32 arrays of amplitude 3e2..2e5, float64 maps scaled by 1e5 / 2e4 / 1e-5, or float32 maps as cryomap.read returns them; "
+        "object; thorough and the search stage also sweep EVERY hard cutoff 1..N/2 on the cubic boxes 48 and 47 (lattice points exactly on the cutoff sphere), the search stage also soft edges (1, 2.7, 4) there; "
+        "a band-pass has ONE pixel size (chosen once per case; every resolution-form cutoff runs the designed cutoff 1..N/2; ties only where round-half-even gives that cutoff; the Nyquist resolution 2*px exactly), in 25 % of the "
+        "resolution-form bands one cutoff is given in pixels (mixed form); 8 % of the maps are uint8/int8/uint16/float16, 13 % big-endian / Fortran-ordered / strided; 7 % of the cutoffs are floats like 4.0; 4 % of the cases run the output_name branch once; 3 % 'reject' cases (no cutoff at all, or a resolution without pixel size: ValueError expected, the model's getFilterRadius = none); 12 % 'margin' cases (sigma<=2, box large enough for bins on both sides of cutoff±(4s+1)). Input = seeded normal random field (+DC offset; ~38 % of the maps are int16 / int32 arrays of amplitude 3e2..2e5, float64 maps scaled by 1e5 / 2e4 / 1e-5, or float32 maps as cryomap.read returns them; "
         "cutoffs are handed over as np.int64 in ~25 %, integral widths / pixel sizes as Python ints in ~30 % of the cases; widths include decimals such as 1.3, 2.7, 3.85) or a sweep of pure plane waves "
         "cos(2*pi*k.p/N+phase) over every integer frequency k of the box (small boxes) or a random subset). The real filter runs on the "
         "input, on a second field, on a*x+b*y, on a circularly shifted x, with the companion low-pass(es), with the documented defaults written out, with fourier_pixels=round(shape[0]*px/res), and once more at the end of the history; the caller's "
@@ -161,7 +163,10 @@ def _n1(node):
 
 
 def _has_call(e):
-    return any(isinstance(x, ast.Call) for x in ast.walk(e))
+    """does evaluating e do anything observable although its value is thrown away: a call, or an operation that can RAISE or run user code
+    (division, modulo, power, subscript, attribute access) — a dead store `tmp = a / (b - 2 * c)` is not harmless"""
+    return any(isinstance(x, (ast.Call, ast.Subscript, ast.Attribute))
+               or (isinstance(x, ast.BinOp) and isinstance(x.op, (ast.Div, ast.FloorDiv, ast.Mod, ast.Pow))) for x in ast.walk(e))
 
 
 class _Subst(ast.NodeTransformer):
@@ -686,8 +691,12 @@ def _field(dims, seed, dtype=None, scale=None):
         a = a * sc
         if dtype in ("int16", "int32"):
             return np.rint(a).astype(dtype)
-        if dtype == "float32":
-            return a.astype(np.float32).astype(np.float64)
+        if dtype in ("uint8", "int8", "uint16"):       # MRC modes 0 / 6 and 8-bit images: offset into the range, clipped
+            ii = np.iinfo(dtype)
+            off = 0.0 if ii.min < 0 else (ii.max + 1) / 2
+            return np.clip(np.rint(a + off), ii.min, ii.max).astype(dtype)
+        if dtype in ("float32", "float16"):
+            return a.astype(dtype).astype(np.float64)
         return a
     # the gain of a bin is measured as fft(out)/fft(in): every bin of the input must be excited (a dyadic-grid field can sum to exactly 0)
     for k in range(1, 50):
@@ -703,6 +712,19 @@ def _field_of(case):
     return _field(tuple(case["dims"]), inp["seed"], inp.get("dtype"), b2f(inp["scale"]) if "scale" in inp else None)
 
 
+def _layout(x, how):
+    """H3 / round 7: memory layouts a map arrives in — big-endian (an MRC file written on another machine), Fortran order, a strided view"""
+    if how == "big-endian":
+        return x.astype(x.dtype.newbyteorder(">"))
+    if how == "fortran":
+        return np.asfortranarray(x)
+    if how == "strided":
+        buf = np.zeros(x.shape[:2] + (2 * x.shape[2],), dtype=x.dtype)
+        buf[:, :, ::2] = x
+        return buf[:, :, ::2]
+    return x
+
+
 def _num(case, key, v):
     """H3: the TYPE a user hands a parameter in: Fourier pixels as numpy integers (`np.int64`, what `shape[0] // 4` or an array element
     is), integral widths / pixel sizes as Python ints (the signature defaults are the ints 3 and 2)"""
@@ -711,6 +733,8 @@ def _num(case, key, v):
         return np.int64(v)
     if how == "int" and float(v) == int(v):
         return int(v)
+    if how == "float":
+        return float(v)          # an integral cutoff typed as a float (4.0)
     return v
 
 
@@ -839,14 +863,21 @@ def _cutoff(rng, dims):
     return rng.randint(1, half)
 
 
-def _res_cut(rng, n, r):
-    """resolution + pixel size whose quotient n*px/res rounds to r (or sits exactly on a .5 tie next to r)"""
-    px = rng.choice([1.0, 1.25, 1.5, 2.0, 0.75, 3.0, 7.89, 1.35, 2.17])
+PIXEL_SIZES = [1.0, 1.25, 1.5, 2.0, 0.75, 3.0, 7.89, 1.35, 2.17]
+
+
+def _res_cut(rng, n, r, px):
+    """resolution for the pixel size px (ONE per case: bandpass has a single pixel_size for both cutoffs) whose quotient n*px/res rounds to r
+    (or sits exactly on a .5 tie next to r, or is the Nyquist resolution 2*px exactly when r = n/2)"""
     k = rng.random()
+    if 2 * r == n and rng.random() < 0.5:
+        return dict(res=f2b(2.0 * px)), px, "nyquist=2px"        # n*px/(2*px) = n/2 exactly
     if k < 0.35:      # exact tie: target r - 0.5 or r + 0.5 reached exactly in floating point, if possible
         for t in (r - 0.5, r + 0.5):
             res = n * px / t if t > 0 else None
-            if res and n * px / res == t:
+            # round-half-even sends a tie to the EVEN neighbour: only a tie that rounds to the designed cutoff r is used (a tie next to an
+            # odd r would run cutoff r-1 or r+1: 0 for r = 1, outside the quantifier)
+            if res and n * px / res == t and round(t) == r:
                 return dict(res=f2b(res)), px, "tie"
     if k < 0.7:
         t = r + rng.uniform(-0.49, 0.49)
@@ -862,7 +893,10 @@ MAP_KINDS = [  # (share, dtype, scales): what maps look like in practice (H3); t
     (0.08, None, [1e5, 2e4]),                # float64 map of large amplitude: a clip to the int16 range breaks linearity (M-7)
     (0.06, None, [1e-5]),                    # tiny amplitude: absolute thresholds / single-precision casts show
     (0.08, "float32", [1.0, 1e3]),           # what cryomap.read returns for a file
+    (0.02, "uint8", [25.0]), (0.02, "int8", [25.0]), (0.02, "uint16", [3000.0]),     # MRC modes 0 / 6, 8-bit images
+    (0.02, "float16", [1.0]),                # MRC mode 12; transformed in single precision like float32
 ]
+LAYOUTS = [(0.05, "big-endian"), (0.04, "fortran"), (0.04, "strided")]
 
 
 def _map_kind(rng, inp):
@@ -874,6 +908,12 @@ def _map_kind(rng, inp):
             sc = rng.choice(scales)
             if sc != 1.0:
                 inp["scale"] = f2b(sc)
+            break
+        k -= share
+    k = rng.random()
+    for share, lay in LAYOUTS:
+        if k < share:
+            inp["layout"] = lay
             break
         k -= share
     return inp
@@ -958,16 +998,26 @@ def _one(rng, tier):
     # the resolution form on every box: the documented box edge of a non-cubic map is shape[0] (Props/C12.box_edge_documented)
     use_res = rng.random() < (0.35 if cubic else 0.3)
 
+    px_case = rng.choice(PIXEL_SIZES)          # round 7, item 1: chosen ONCE (mk(hp) used to overwrite the px mk(lp) had computed its resolution for)
+    # a band-pass in resolution form gives one of its cutoffs in Fourier pixels in ~25 % of the cases (mixed form)
+    mixed = kind == "band" and use_res and rng.random() < 0.25
+    pix_edge = rng.choice(["lp", "hp"]) if mixed else None
+    edge_name = iter(["lp", "hp"])
+
     def mk(r):
-        if use_res:
-            cut, px, how = _res_cut(rng, dims[0], r)
+        edge = next(edge_name, None)
+        if use_res and not (kind == "band" and edge == pix_edge):
+            cut, px, how = _res_cut(rng, dims[0], r, px_case)
             case["px"] = f2b(px)
-            case.setdefault("res_how", how)
+            case.setdefault("res_how", []).append(how)
+            if py_radius(case, cut) != r:                        # never expected; keeps the cutoff that runs the designed one (1..N/2)
+                cut, how = dict(res=f2b(dims[0] * px / r)), "generic"
+                case["res_how"][-1] = how
             if rng.random() < 0.1:
                 cut["fp"] = r if rng.random() < 0.5 else max(1, r - 1)     # both given: Fourier pixels win
             return cut
-        if rng.random() < 0.15:
-            case["px"] = f2b(rng.choice([1.0, 1.35, 2.0]))                # pixel size given alongside pixels: only printed
+        if rng.random() < 0.15 and not use_res:
+            case.setdefault("px", f2b(rng.choice([1.0, 1.35, 2.0])))       # pixel size given alongside pixels: only printed (never replaces the case's px)
         return dict(fp=r)
 
     if kind == "band":
@@ -995,14 +1045,19 @@ def _one(rng, tier):
     _defaults(rng, case)
     _history(rng, case)
     _types(rng, case)
+    if rng.random() < 0.04:
+        case["outfile"] = rng.choice([".em", ".mrc"])      # the output_name branch runs once more at the end (round 7, item 4)
     return case
 
 
 def _types(rng, case):
     """H3: parameter types a user naturally passes (numpy integer cutoffs, int widths and pixel sizes)"""
     t = {}
-    if rng.random() < 0.25:
+    k = rng.random()
+    if k < 0.25:
         t["fp"] = "np.int64"
+    elif k < 0.32:
+        t["fp"] = "float"
     if rng.random() < 0.3:
         t["sigma"] = "int"
     if rng.random() < 0.3:
@@ -1048,9 +1103,20 @@ def _hard_sweep(rng):
                        input=dict(type="field", seed=rng.randrange(1 << 30)), aux=rng.randrange(1 << 30), stream="hard-sweep")
 
 
+def _soft_sweep(rng):
+    """soft edges on the LARGEST boxes (the search tier's own boxes stop at 16..22): widths 1, 2.7, 4 x cutoffs from 1 to N/2 on 48 and 47"""
+    for N in (48, 47):
+        for s in (1.0, 2.7, 4.0):
+            for r in (1, 5, 12, 17, 23, N // 2):
+                yield dict(dims=[N, N, N], kind=rng.choice(["low", "low", "high"]), cut=dict(fp=r), sigma=f2b(s),
+                           input=dict(type="field", seed=rng.randrange(1 << 30)), aux=rng.randrange(1 << 30), stream="soft-sweep")
+            yield dict(dims=[N, N, N], kind="band", lp=dict(fp=rng.randint(10, N // 2)), hp=dict(fp=rng.randint(1, 9)), lp_sigma=f2b(s), hp_sigma=f2b(s),
+                       input=dict(type="field", seed=rng.randrange(1 << 30)), aux=rng.randrange(1 << 30), stream="soft-sweep")
+
+
 def search_cases(rng, broken, anchors):
     """extra cases of the search stage (something broke, no failing input yet)"""
-    return list(_hard_sweep(rng))
+    return list(_hard_sweep(rng)) + list(_soft_sweep(rng))
 
 
 def generate(rng, tier, n):
@@ -1137,7 +1203,7 @@ def run_impl(case):
             cuts = ["cut"] if case["kind"] != "band" else ["lp", "hp"]
             aux = np.random.default_rng(case["aux"])
             inp = case["input"]
-            x = _field_of(case)
+            x = _layout(_field_of(case), inp.get("layout"))
             amp = b2f(inp["scale"]) if "scale" in inp else 1.0
             if case.get("stream") == "reject":
                 y = f(x)       # expected to raise (the framework records type and raising module)
@@ -1177,10 +1243,26 @@ def run_impl(case):
             y2 = np.asarray(f(x2)).real
             y12 = np.asarray(f(a * x + b * x2)).real
             out["lin"] = dict(a=a, b=b, dev=float(np.abs(y12 - (a * yr + b * y2)).max()))
-            if inp.get("dtype") == "float32":
+            if case.get("outfile"):
+                # round 7: the `output_name` branch (anchored by flow_documented, never run before): same returned array, and the file holds it
+                # in single precision
+                name = "c12_out" + case["outfile"]
+                kw_out = dict(_sigma_kwargs(case))
+                if case["kind"] == "band":
+                    kw_out.update(_cut_kwargs(case["lp"], "lp_", case), **_cut_kwargs(case["hp"], "hp_", case))
+                    fn_out = cryomap.bandpass
+                else:
+                    kw_out.update(_cut_kwargs(case["cut"], "", case))
+                    fn_out = cryomap.lowpass if case["kind"] == "low" else cryomap.highpass
+                yo = np.asarray(f._call(fn_out, x, output_name=name, **f._px_kw(), **kw_out))
+                back = cryomap.read(name) if os.path.exists(name) else None
+                out["outfile"] = dict(exists=back is not None, ret_dev=float(np.abs(yo.real - yr).max()) if yo.shape == dims else float("inf"),
+                                      file_shape=list(back.shape) if back is not None else None,
+                                      file_rel=float(np.abs(back - yr).max() / max(np.abs(yr).max(), 1e-300)) if back is not None and back.shape == dims else None)
+            if inp.get("dtype") in ("float32", "float16"):
                 # the map as cryomap.read returns it for a file: the SAME values in single precision. numpy >= 2 transforms it in single
                 # precision; the result must be the double-precision result within the float32 FFT error (tolerance: see judge)
-                x32 = x.astype(np.float32)
+                x32 = x.astype(inp["dtype"])
                 y32 = np.asarray(f(x32))
                 ok32 = y32.shape == dims and y32.dtype.kind == "f"
                 out["f32"] = dict(dtype=str(y32.dtype), shape=list(y32.shape), finite=bool(np.all(np.isfinite(y32))) if y32.dtype.kind in "fc" else False,
@@ -1486,10 +1568,16 @@ def judge(case, obs, resps):
         f32 = obs["f32"]
         tol32 = 8 * float(np.finfo(np.float32).eps) * math.log2(dims[0] * dims[1] * dims[2])
         if f32["shape"] != list(dims) or not f32["dtype"].startswith("float") or not f32["finite"]:
-            out.append(dict(kind="spec", clause="real-valued", detail=f"float32 map: returned dtype {f32['dtype']} shape {f32['shape']} finite={f32['finite']}"))
+            out.append(dict(kind="spec", clause="real-valued", detail=f"{case['input'].get('dtype')} map: returned dtype {f32['dtype']} shape {f32['shape']} finite={f32['finite']}"))
         elif f32["rel"] is None or not f32["rel"] <= tol32:
-            out.append(dict(kind="spec", clause="float32-map", detail=f"the filter of the float32 map differs from the filter of the same values in float64 by {f32['rel']:.3g} x ||x|| (2-norm), "
+            out.append(dict(kind="spec", clause="float32-map", detail=f"the filter of the {case['input'].get('dtype')} map (transformed in single precision) differs from the filter of the same values in float64 by {f32['rel']:.3g} x ||x|| (2-norm), "
                             f"more than the single-precision FFT error 8*eps32*log2(N) = {tol32:.3g}: not the same gains"))
+    if "outfile" in obs:       # the statement says nothing about output files: corr
+        o = obs["outfile"]
+        if not o["exists"] or o["file_shape"] != list(dims) or o["file_rel"] is None or not o["file_rel"] <= 1e-6:
+            out.append(dict(kind="corr", clause="output-file", detail=f"output_name given: file written={o['exists']}, shape {o['file_shape']}, deviation from the returned map {o['file_rel']} x max (documented: the map in single precision)"))
+        if not o["ret_dev"] <= TOL * sc:
+            out.append(dict(kind="corr", clause="output-file-return", detail=f"the call with output_name returns a map that differs by {o['ret_dev']:.3g} from the call without"))
     g = np.array([b2f(b) for b in obs["gain"]]).reshape(dims)
     if obs["gain_imag_max"] > TOL:
         out.append(dict(kind="spec", clause="real-gain", detail=f"fft(out)/fft(in) has imaginary part {obs['gain_imag_max']:.3g}"))
@@ -1680,6 +1768,8 @@ def stats(case, obs, resps):
     st["earlier_calls_same_key(G2)"] = "+".join(p_["kind"] + ":" + (p_["which"] or "cut") for p_ in case.get("pre", [])) or "none"
     st["stream"] = case.get("stream", "general")
     st["map_dtype"] = case["input"].get("dtype", "float64")
+    st["map_layout"] = case["input"].get("layout", "C-contiguous native")
+    st["output_name"] = case.get("outfile", "none")
     st["map_scale"] = ("%g" % b2f(case["input"]["scale"])) if "scale" in case["input"] else "1"
     st["param_types(H3)"] = "+".join(f"{k}:{v}" for k, v in sorted(case.get("types", {}).items())) or "plain"
     if case["kind"] == "band":
